@@ -79,7 +79,8 @@ def reduce_mod(coeffs, phi):
 
 # ---- models ------------------------------------------------------------------------------------------------------
 
-def _models():
+def _models(first=None):
+    """`first(md, helpers)`: rule-specific models registered ahead of the shared ones"""
     def _len(ex, st, fr, t, a):
         v = ex.deref(a[0])
         if isinstance(v, SX.Obj) and v.adt == "array":
@@ -397,6 +398,8 @@ def _models():
         return NotImplemented
 
     def extra(md):
+        if first is not None:
+            first(md, {"elems": _elems, "pyiter": _pyiter, "call_value": _call_value, "base": _base, "view": _view})
         md.on(SX.by(None, ("deref", "deref_mut", "as_mut_slice", "as_slice", "as_mut", "as_ref", "borrow_mut", "borrow")), _deref)
         md.on(SX.by("core::cmp::PartialEq", "eq"), _enum_eq(False))
         md.on(SX.by("core::cmp::PartialEq", "ne"), _enum_eq(True))
